@@ -3,6 +3,7 @@ CONSTANTS
   MaxStarts = 2
   MaxDrops = 1
   MaxForget = 0
+  MaxLinks = 0
   MaxDups = 0
   TieBreak = FALSE
   RoleByAddress = TRUE
